@@ -26,7 +26,7 @@
 //   eof                                  the peer closes: a posted receive fails with NNG_ECONNSHUT
 // CLIENT side (http_client.c nni_http_transact_conn from libnng.a, over a client connection object of the included http_conn.c):
 //   cli                                  new client connection over the fake stream (Host "h")
-//   txn <method hex> <uri hex> <body hex|->   nni_http_conn_reset, set method / uri / body, nni_http_transact_conn
+//   txn <method hex> <uri hex> <body hex|-> [keep 0|1]   nni_http_conn_reset (not with keep), set method / uri / body, nni_http_transact_conn
 //        -> the request bytes written (W) and, when the transaction completes, T rv=<n> [st=<status> b=<body hex|->]
 //   rx / eof as above (the response bytes); a closed client stream is not reported
 // events, joined by " ; " ("-" if none):
@@ -560,7 +560,7 @@ main(void)
 			nni_http_set_host(cli, "h");
 			txn_active = txn_done = false;
 			printf("cli ok\n");
-		} else if (strcmp(op, "txn") == 0 && vn == 4) {
+		} else if (strcmp(op, "txn") == 0 && (vn == 4 || vn == 5)) {
 			if (cli == NULL) {
 				printf("no-cli\n");
 				continue;
@@ -573,7 +573,11 @@ main(void)
 			char    *u = hex_str(vw[2]);
 			size_t   n;
 			uint8_t *b = parse_hex(vw[3], &n);
-			nni_http_conn_reset(cli);
+			if (!(vn == 5 && atoi(vw[4]) != 0)) {
+				// the application starts from a fresh request; with `keep` it reuses the one it built (its
+				// headers, and the body unless a new one is given): no nng_http_reset between transactions
+				nni_http_conn_reset(cli);
+			}
 			nni_http_set_method(cli, m);
 			(void) nni_http_set_uri(cli, u, NULL);
 			if (n > 0) {
